@@ -12,7 +12,7 @@ SPEC = {
                   "cases_huge_value": 1500, "cases_minmax_disabled": 1000, "bounds_default": 800,
                   "histories_single_delta_fastpath": 3000, "histories_multi_reader": 6000,
                   "merge_with_empty_interval": 3000, "minmax_all_below_min_normal_points": 10000},
-        "thorough": {"cases_value_eq_boundary": 200000, "cases_all_zero": 60000, "cases_empty_bounds_minmax": 60000,
+        "thorough": {"cases_value_eq_boundary": 180000, "cases_all_zero": 60000, "cases_empty_bounds_minmax": 60000,
                      "merge_splits_k_ge3": 300000, "points_meter-delta": 1000000, "points_meter-cumulative": 1000000,
                      "points_temporal-delta": 1000000, "points_temporal-cumulative": 1000000, "diff_checked": 1000000,
                      "cases_long_beyond53": 20000, "cases_double_exact": 100000, "cases_double_tolerance": 100000,
